@@ -154,6 +154,23 @@ def main():
         traceback.print_exc()
         print(f"TRANSLATOR-REFUSES: {type(e).__name__}: {e}", file=sys.stderr)
         return 3
+    # plugins written independently may emit the same table twice: keep one copy when
+    # the text is identical, refuse when two plugins disagree about a name
+    seen, dedup = {}, []
+    for line in out:
+        name = None
+        for kw in ("Definition ", "Inductive "):
+            if line.startswith(kw):
+                name = line[len(kw):].split()[0].rstrip(":")
+        if name is not None:
+            if name in seen:
+                if seen[name] == line:
+                    continue
+                print(f"TRANSLATOR-REFUSES: table {name} emitted twice with different contents", file=sys.stderr)
+                return 3
+            seen[name] = line
+        dedup.append(line)
+    out = dedup
     header = [
         "(* GENERATED by translator/gen_tables.py from the current /repo working tree.",
         "   Do not edit: regenerated on every run of ./check and of setup. *)",
